@@ -377,6 +377,24 @@ func (s *sweeper) sweepGRPC(cl sweepClient, limit int64) {
 	}
 }
 
+// sweepGRPCStride covers the rest of the 8-digit range thinly (quick tier): one numeral in every
+// window of `stride`, the position inside the window varying, in every unit.
+func (s *sweeper) sweepGRPCStride(cl sweepClient, from, stride int64) {
+	units := "HMSmun"
+	n := (100_000_000 - from) / stride
+	for ui := 0; ui < len(units); ui++ {
+		u := units[ui]
+		uns := grpcUnitNS[u]
+		s.parallel(cl, n, func(w *sweepWorker, i int64) {
+			v := from + i*stride + (i*7919)%stride
+			var buf [12]byte
+			b := strconv.AppendInt(buf[:0], v, 10)
+			b = append(b, u)
+			w.one(string(b), v*uns, v <= maxInt64/uns)
+		})
+	}
+}
+
 func (s *sweeper) sweepConnect(cl sweepClient, limit int64) {
 	s.parallel(cl, limit, func(w *sweepWorker, i int64) {
 		w.one(strconv.FormatInt(i, 10), i*1e6, true)
@@ -480,18 +498,24 @@ func sweepMain(args []string) int {
 			switch cl.header {
 			case "Grpc-Timeout":
 				s.sweepGRPC(cl, limit)
+				if mode == "smoke" {
+					s.sweepGRPCStride(cl, limit, 997)
+				}
 			case "Connect-Timeout-Ms":
 				s.sweepConnect(cl, limit)
 			default:
 				s.sweepREST(cl, scale)
 			}
 		}
-		s.res.Domains = []string{
+		if mode == "smoke" {
+			s.res.Domains = append(s.res.Domains, fmt.Sprintf("(quick tier) Grpc-Timeout above %d: one numeral in every window of 997, in every unit", limit-1))
+		}
+		s.res.Domains = append(s.res.Domains, []string{
 			fmt.Sprintf("Grpc-Timeout (clients grpc, grpc-web): every numeral 0..%d in each of the units H M S m u n, and every numeral below 1000 zero-padded to every width up to 8", limit-1),
 			fmt.Sprintf("Connect-Timeout-Ms (clients connect-unary, connect-stream): every value 0..%d; d x 10^k +- 0..2000 for the 9- and 10-digit values; the top 4001 values below 10^10", limit-1),
 			"X-Server-Timeout (client rest): i.f for every integer part below 100 and every fraction of 0..5 digits; 9-digit fractions 000xxxxxx and xxxxxx000 for the integer parts 0, 1, 7, 59, 3600",
 			"each value through extractProtocolRequestHeaders of the client protocol, then addProtocolRequestHeaders of each of the five target protocols",
-		}
+		}...)
 	}
 	s.res.Evaluations = s.evals
 	s.res.Nontrivial = s.nontr
